@@ -156,12 +156,20 @@ Inductive uop :=
 | UHttpHandler (srv : Z) (path : list Z) (r : hresp)
 | UHttpStall (srv : Z) (path : list Z)
 | UHttpStop (srv : Z)
+| UProxyNew (app node port : Z)
+| UProxyStop (app : Z)
 | UTcpWriteBytes (s : Z) (data : list Z) (h : Z)
 | UTcpReadRaw (s bufsize h : Z) (loop : bool).     (* loop: re-issued after every successful completion *)                    (* async_read_some whose handler also reports the bytes *)   (* async_write_some of explicit bytes *)                 (* verification hook: simulation::verif_set_next_bind_port *)
 
 (* state of the two composed operations the harness offers (one per socket) *)
 Record wall := mkWall { wa_rest : list Z; wa_done : Z; wa_chunk : Z; wa_h : Z }.
 Record rall := mkRall { ra_buf : Z; ra_total : Z; ra_a : Z; ra_c : Z; ra_h : Z }.
+
+(* sim::http_proxy *)
+Record proxy := mkProxy {
+  px_node : Z; px_writing : bool; px_cin : list Z; px_sout : list Z; px_close : bool
+}.
+#[export] Instance eta_proxy : Settable _ := settable! mkProxy <px_node; px_writing; px_cin; px_sout; px_close>.
 
 Record net := mkNet {
   w_sinks : zmap sink; w_next_sink : Z;
@@ -176,12 +184,13 @@ Record net := mkNet {
   w_pcap : option (list cap);
   w_wall : zmap wall; w_rall : zmap rall;
   w_http : zmap http;
+  w_proxy : zmap proxy;
   w_deadfwd : list Z        (* forwarders whose socket object has been destroyed *)
 }.
 #[export] Instance eta_net : Settable _ :=
   settable! mkNet <w_sinks; w_next_sink; w_handlers; w_nodes; w_in; w_out; w_route; w_mtu; w_mtus; w_hosts;
                    w_tcp_reg; w_udp_reg; w_next_port; w_tcps; w_udps; w_chans; w_next_chan; w_rslv; w_pcap;
-                   w_wall; w_rall; w_http; w_deadfwd>.
+                   w_wall; w_rall; w_http; w_proxy; w_deadfwd>.
 
 Definition set_sink (w : net) (i : Z) (s : sink) : net := w <| w_sinks := mset (w_sinks w) i s |>.
 
